@@ -69,6 +69,15 @@ def cell_job(job):
         out["outcome"] = "budget"
     except de.exception_types.FailedToMeetTolerances:
         out["outcome"] = "raised"
+    except (ValueError, np.linalg.LinAlgError, OverflowError, FloatingPointError) as e:
+        # the library's own dogleg (long double) gives up with "Encountered nan!" on the stiffest cells instead of the tolerance error:
+        # no step is accepted either way - unobserved, not a pass
+        if dt != np.dtype("float64"):
+            out["outcome"] = "raised"
+            out["error"] = "%s: %s" % (type(e).__name__, str(e)[:100])
+        else:
+            out["outcome"] = "error"
+            out["error"] = "%s: %s" % (type(e).__name__, str(e)[:100])
     except Exception as e:      # noqa
         out["outcome"] = "error"
         out["error"] = "%s: %s" % (type(e).__name__, str(e)[:100])
